@@ -174,15 +174,25 @@ def rule_build_validate(ctx):
         raise CheckFailure('MUST-build-validate: validation role not found (%s)' % roles)
     v = roles[0]
     builds = [n for n in prog.bodies if n.startswith(('sync::builder::CacheBuilder::build', 'unsync::builder::CacheBuilder::build')) and prog.bodies[n].kind != 'closure']
-    for nid in sorted(builds):
+    ctor = {n for n in prog.bodies if n.endswith('Cache::with_everything')}
+    # every function that hands builder durations to the cache constructor validates them first ...
+    direct = sorted(n for n in prog.bodies if (prog.callees(n) & ctor) and n.startswith(('sync::builder::', 'unsync::builder::')))
+    for nid in direct:
         b = prog.bodies[nid]
         dom = b.dominators()
         vblocks = [bi for bi, t in b.calls() if v in prog.call_targets(b, t)[0]]
-        cblocks = [bi for bi, t in b.calls() if any(x.endswith('Cache::with_everything') for x in prog.call_targets(b, t)[0])]
-        ok = bool(vblocks) and bool(cblocks) and all(any(vb in dom.get(cb, ()) for vb in vblocks) for cb in cblocks)
-        r.instance(function=nid, validates_before_construct=ok)
+        cblocks = [bi for bi, t in b.calls() if set(prog.call_targets(b, t)[0]) & ctor]
+        ok = bool(vblocks) and all(any(vb in dom.get(cb, ()) for vb in vblocks) for cb in cblocks)
+        r.instance(function=nid, constructs_cache=True, validates_before_construct=ok)
         if not ok:
             r.violate(nid, 'no-validation', v.split('::')[-1], '%s constructs the cache without (first) validating time_to_live / time_to_idle' % nid, where=ctx.where(nid))
+    # ... and every public build* reaches the constructor only through such a function
+    for nid in sorted(builds):
+        reach = prog.reachable_from([nid])
+        ok = bool(reach & set(direct)) and (nid in direct or not (prog.callees(nid) & ctor))
+        r.instance(function=nid, builds_through=sorted(reach & set(direct)), ok=ok)
+        if not ok:
+            r.violate(nid, 'no-validation', v.split('::')[-1], '%s does not build the cache through a validating function' % nid, where=ctx.where(nid))
     # the comparison
     sx = ctx.symex(inline_depth=2)
     paths = sx.run(v)
